@@ -2328,15 +2328,21 @@ class FileSet:
             raise ValueError('Cannot use temporal placeholders if year, month '
                              'and day are not set.')
 
-        end_datetime_args = self._standardise_datetime_args(end_args)
+        # An end given as day of year without its own year lies in the year
+        # of the start:
+        end_datetime_args = self._standardise_datetime_args(
+            end_args, default_year=start_datetime_args.get("year")
+        )
 
         return start_datetime_args, end_datetime_args
 
-    def _standardise_datetime_args(self, args):
+    def _standardise_datetime_args(self, args, default_year=None):
         """Replace some placeholders to datetime-conform placeholder.
 
         Args:
             args: A dictionary of placeholders.
+            default_year: Year that is used for converting a day of year if
+                *args* does not contain a year itself.
 
         Returns:
             The standardised placeholder dictionary.
@@ -2360,7 +2366,8 @@ class FileSet:
 
         doy = args.pop("doy", None)
         if doy is not None:
-            date = datetime(args["year"], 1, 1) + timedelta(doy - 1)
+            date = datetime(args.get("year", default_year), 1, 1) \
+                + timedelta(doy - 1)
             args["month"] = date.month
             args["day"] = date.day
 
